@@ -37,11 +37,12 @@ Proof. exact dir_iter_all. Qed.
 Theorem C06_names : forall l, Permutation (sort_names l) l.
 Proof. exact sort_names_perm. Qed.
 
-(* STAT reports the true kind, size (0 for directories) and mtime, or -1 when the path does not resolve *)
+(* STAT reports the true kind, size (0 for directories) and times (mtime, then change time, then access time), or -1
+   when the path does not resolve *)
 Theorem C06_stat : forall c w k p,
   step c w k (RStatFile p) =
   match fs_stat (plen c) w (abs_path c (rooted_elems p)) with
-  | Ok fi => done w k (enc_stat (eff_size fi) (fi_mtime fi) masked_time masked_time (fi_dir fi))
+  | Ok fi => done w k (enc_stat (eff_size fi) (fi_mtime fi) masked_ctime masked_atime (fi_dir fi))
   | Err _ => done w k (enc_stat (-1) 0 0 0 false)
   end.
 Proof. exact stat_true. Qed.
@@ -64,6 +65,6 @@ Print Assumptions C06_dirsize.
 Example C06_ex :
   let k1 := o_conn (step (ex_cfg false) ex_world conn0 (ROpenDir [47])) in
   fst (dir_iter (ex_cfg false) ex_world k1 [false; true; false])
-  = [enc_dirent 11 1 false ++ ex_name_a; enc_dirent_v2 0 30 0 0 1 true ++ ex_name_d; enc_dirent (-1) 0 false]
+  = [enc_dirent 11 1 false ++ ex_name_a; enc_dirent_v2 0 30 masked_ctime masked_atime 1 true ++ ex_name_d; enc_dirent (-1) 0 false]
   /\ o_out (step (ex_cfg false) ex_world conn0 (RGetDirSize [47])) = be64 14.
 Proof. split; vm_compute; reflexivity. Qed.
